@@ -35,17 +35,19 @@ type szCase struct {
 
 func runC17(a *args) error {
 	r := newRng(a.seed)
-	st := newStats("simulated 3-node clusters, datasets of 2..7 partitions (one replica per partition, every third dataset with two replicas) populated with 15..60 items; SizeInfo asked on every node with a random set of failing nodes (plain transport error, gRPC Canceled as for a closing connection, DeadlineExceeded), each configuration repeated 6 times (goroutine timing varies); per-partition (len, bytes) taken from the hosting node's index; non-trivial = >= 2 remote partitions of different sizes; distinct by (dataset, asked, down)")
-	nds := 4
+	st := newStats("simulated 3-node clusters, datasets of 2..5 partitions (2..6 in the thorough tier; one replica per partition, every third dataset with two replicas) populated with 15..60 items; SizeInfo asked on every node with a random set of failing nodes (plain transport error, gRPC Canceled as for a closing connection, DeadlineExceeded), each configuration repeated 6 times (goroutine timing varies); per-partition (len, bytes) taken from the hosting node's index; non-trivial = >= 2 remote partitions of different sizes; distinct by (dataset, asked, down)")
+	nds, maxParts := 4, 5
 	if a.tier == "thorough" {
-		nds = 16
+		nds, maxParts = 16, 6
 	}
 	nodes := []uint64{1, 2, 3}
 	var cases []szCase
 	seen := map[string]bool{}
 	for di := 0; di < nds; di++ {
 		replicated := di%3 == 2
-		d, err := buildSimData(r.fork(), nodes, 2+r.intn(6), replicated, 15+r.intn(46))
+		// the model side enumerates every interleaving of the workers: its cost grows about 14-fold per partition
+		// (0.07 s per case at 5, 0.9 s at 6, 13 s at 7), hence the cap
+		d, err := buildSimData(r.fork(), nodes, 2+r.intn(maxParts-1), replicated, 15+r.intn(46))
 		if err != nil {
 			return err
 		}
